@@ -297,6 +297,7 @@ class FunctionReport:
         self.slow_queries = []
         self.uncovered = []        # 'line N: <source>' of return/raise statements no feasible path reached
         self.deps_sha = None
+        self.dep_shas = {}         # qualified name -> sha256 of the source text (the function itself under '')
 
 
 def verify_function(reg, c, budget_paths=MAX_PATHS):
@@ -392,15 +393,23 @@ def _deps_sha(reg, c, rep):
     import hashlib
     import importlib
     parts = [rep.sha or '']
+    rep.dep_shas = {'': rep.sha or ''}
     for q in sorted(rep.inlined):
-        modname, _, path = q.partition(':')
-        try:
-            obj, _owner = frontend.resolve_qualified(q)
-            f = frontend.raw_function(obj)
-            parts.append(q + '=' + (frontend.funcinfo_of(f).source_sha or ''))
-        except Exception:
-            parts.append(q + '=?')
+        sha = source_sha_of(q)
+        rep.dep_shas[q] = sha
+        parts.append(q + '=' + sha)
     return hashlib.sha256('\n'.join(parts).encode()).hexdigest()
+
+
+def source_sha_of(q):
+    """sha256 of the current source text of the repository function with this qualified name ('?' if it
+    cannot be located any more)"""
+    try:
+        obj, _owner = frontend.resolve_qualified(q)
+        f = frontend.raw_function(obj)
+        return frontend.funcinfo_of(f).source_sha or ''
+    except Exception:
+        return '?'
 
 
 def _cleanup(st):
